@@ -8,6 +8,29 @@ use vstd::prelude::*;
 // build; it is replaced by an opaque placeholder (stated in DESIGN.md 2.1 "drops").
 struct Key {}
 
+// what a first byte of a value dispatches to (classes of the arms of value()'s dispatch!)
+#[derive(PartialEq, Eq)]
+enum ValueKind {
+    Str, GuardedArray, GuardedInlineTable, DateOrNumber,
+    IntegerTypo, FloatTypo, True, False, Inf, Nan, Fail,
+}
+
+// TOML 1.0.0: val = string / boolean / array / inline-table / date-time / float / integer, by first
+// byte; arrays and inline tables are the recursive productions and must go through check_recursion
+spec fn value_kind(b: u8) -> ValueKind {
+    if b == 0x22 || b == 0x27 { ValueKind::Str }
+    else if b == 0x5b { ValueKind::GuardedArray }
+    else if b == 0x7b { ValueKind::GuardedInlineTable }
+    else if b == 0x2b || b == 0x2d || (0x30 <= b && b <= 0x39) { ValueKind::DateOrNumber }
+    else if b == 0x5f { ValueKind::IntegerTypo }
+    else if b == 0x2e { ValueKind::FloatTypo }
+    else if b == 0x74 { ValueKind::True }
+    else if b == 0x66 { ValueKind::False }
+    else if b == 0x69 { ValueKind::Inf }
+    else if b == 0x6e { ValueKind::Nan }
+    else { ValueKind::Fail }
+}
+
 //@ contract RecursionCheck::check_depth ret=r
     ensures
         (r is Err) == (_depth >= LIMIT),
@@ -49,3 +72,6 @@ proof fn lemma_balance(c: usize)
 {
 }
 
+
+//@ contract value_dispatch ret=r
+    ensures r == value_kind(b),
